@@ -55,11 +55,73 @@ func subterms(text, fn string) []string {
 	return out
 }
 
+// subterms2 returns the distinct argument pairs of applications "(fn A B)".
+func subterms2(text, fn string) [][2]string {
+	seen := map[string]bool{}
+	var out [][2]string
+	pat := "(" + fn + " "
+	i := 0
+	sexp := func(k int) int {
+		if text[k] == '(' {
+			d := 0
+			for ; k < len(text); k++ {
+				if text[k] == '(' {
+					d++
+				} else if text[k] == ')' {
+					d--
+					if d == 0 {
+						return k + 1
+					}
+				}
+			}
+			return k
+		}
+		for k < len(text) && text[k] != ' ' && text[k] != ')' {
+			k++
+		}
+		return k
+	}
+	for {
+		j := strings.Index(text[i:], pat)
+		if j < 0 {
+			break
+		}
+		start := i + j + len(pat)
+		k := sexp(start)
+		a := text[start:k]
+		k2 := sexp(k + 1)
+		b := text[k+1 : k2]
+		key := a + " " + b
+		if !seen[key] && !strings.Contains(key, "q_") {
+			seen[key] = true
+			out = append(out, [2]string{a, b})
+		}
+		i = start
+	}
+	return out
+}
+
 // lemmaInstances generates ground instances of the pow10/nd10 lemma library
 // (DESIGN section 4) for the terms that occur in the query text.
 func lemmaInstances(text string) []string {
 	var out []string
 	add := func(f string, a ...interface{}) { out = append(out, fmt.Sprintf(f, a...)) }
+	// Euclidean division by a symbolic divisor: defining property per occurrence
+	dm := map[string][2]string{}
+	for _, p := range append(subterms2(text, "edq"), subterms2(text, "edr")...) {
+		dm[p[0]+" "+p[1]] = p
+	}
+	var dmk []string
+	for k := range dm {
+		dmk = append(dmk, k)
+	}
+	sort.Strings(dmk)
+	for _, k := range dmk {
+		a, b := dm[k][0], dm[k][1]
+		add("(=> (> %s 0) (and (= %s (+ (* (edq %s %s) %s) (edr %s %s))) (<= 0 (edr %s %s)) (< (edr %s %s) %s)))", b, a, a, b, b, a, b, a, b, a, b, b)
+		add("(=> (< %s 0) (and (= %s (+ (* (edq %s %s) %s) (edr %s %s))) (<= 0 (edr %s %s)) (< (edr %s %s) (- %s))))", b, a, a, b, b, a, b, a, b, a, b, b)
+		add("(=> (and (> %s 0) (>= %s 0)) (and (>= (edq %s %s) 0) (<= (edq %s %s) %s)))", b, a, a, b, a, b, a)
+	}
 	p10 := subterms(text, "pow10")
 	nds := subterms(text, "nd10")
 	pset := map[string]bool{}
@@ -74,10 +136,12 @@ func lemmaInstances(text string) []string {
 	}
 	for _, v := range nds {
 		add("(>= (nd10 %s) 1)", v)
+		add("(<= (nd10 %s) 1000000000)", v) // assumption A-size: fewer than 10^9 digits per coefficient
 		add("(=> (= %s 0) (= (nd10 %s) 1))", v, v)
 		add("(=> (> %s 0) (and (<= (pow10 (- (nd10 %s) 1)) %s) (< %s (pow10 (nd10 %s)))))", v, v, v, v, v)
 		addP(fmt.Sprintf("(- (nd10 %s) 1)", v))
 		addP(fmt.Sprintf("(nd10 %s)", v))
+		addP(fmt.Sprintf("(+ (nd10 %s) 1)", v))
 	}
 	// literal values
 	lit := int64(1)
@@ -104,6 +168,7 @@ func lemmaInstances(text string) []string {
 			if i < j {
 				add("(=> (= %s %s) (= (pow10 %s) (pow10 %s)))", a, b, a, b)
 			}
+			add("(=> (and (<= 0 %s) (= %s (+ %s 1))) (= (pow10 %s) (* 10 (pow10 %s))))", a, b, a, b, a)
 		}
 	}
 	for _, v := range nds {
@@ -120,6 +185,37 @@ func lemmaInstances(text string) []string {
 		}
 	}
 	// pow2 / bitlen
+	p2 := subterms(text, "pow2")
+	p2set := map[string]bool{}
+	for _, t := range p2 {
+		p2set[t] = true
+	}
+	for _, v := range subterms(text, "bitlen") {
+		for _, t := range []string{fmt.Sprintf("(- (bitlen %s) 1)", v), fmt.Sprintf("(bitlen %s)", v)} {
+			if !p2set[t] {
+				p2set[t] = true
+				p2 = append(p2, t)
+			}
+		}
+	}
+	for _, t := range p2 {
+		add("(=> (>= %s 0) (>= (pow2 %s) 1))", t, t)
+	}
+	add("(= (pow2 0) 1)")
+	add("(= (pow2 64) 18446744073709551616)")
+	add("(= (pow2 128) 340282366920938463463374607431768211456)")
+	for i, a := range p2 {
+		for j, b := range p2 {
+			if i == j {
+				continue
+			}
+			add("(=> (and (<= 0 %s) (< %s %s)) (<= (* 2 (pow2 %s)) (pow2 %s)))", a, a, b, a, b)
+			add("(=> (and (<= 0 %s) (= %s (+ %s 1))) (= (pow2 %s) (* 2 (pow2 %s))))", a, b, a, b, a)
+			if i < j {
+				add("(=> (= %s %s) (= (pow2 %s) (pow2 %s)))", a, b, a, b)
+			}
+		}
+	}
 	for _, v := range subterms(text, "bitlen") {
 		add("(>= (bitlen %s) 0)", v)
 		add("(=> (= %s 0) (= (bitlen %s) 0))", v, v)
